@@ -636,6 +636,27 @@ fn hand_written_hostile() -> Vec<Vec<u8>> {
         b.push(0x40);
         v.push(b);
     }
+    // siblings do not buy depth: a list of `pad` empty lists followed by a chain of `d` nested lists
+    for (pad, d) in [(1usize, 126usize), (1, 127), (1, 128), (5, 128), (5, 130), (40, 128), (40, 160), (200, 127)] {
+        let chain = |k: usize| -> Vec<u8> {
+            let mut b = vec![];
+            for i in 0..k {
+                let remaining = (k - i - 1) * 9 + 1;
+                b.push(0xd0);
+                b.extend_from_slice(&((remaining + 4) as u32).to_be_bytes());
+                b.extend_from_slice(&1u32.to_be_bytes());
+            }
+            b.push(0x40);
+            b
+        };
+        let c = chain(d);
+        let mut b = vec![0xd0];
+        b.extend_from_slice(&((4 + pad + c.len()) as u32).to_be_bytes());
+        b.extend_from_slice(&((pad + 1) as u32).to_be_bytes());
+        b.extend(std::iter::repeat(0x45).take(pad));
+        b.extend_from_slice(&c);
+        v.push(b);
+    }
     // described nesting
     for k in [5usize, 127, 128, 129, 5000] {
         let mut b = vec![];
@@ -1018,6 +1039,23 @@ pub fn nesting_probe_child(kind: &str, n: usize) {
             }
             input.push(0x40);
         }
+        // a list32 holding n empty lists (list0) and then a chain of n nested list32: siblings must
+        // not buy depth
+        "padded" => {
+            let chain_len = |k: usize| k * 9 + 1;
+            input.push(0xd0);
+            input.extend_from_slice(&((4 + n + chain_len(n)) as u32).to_be_bytes());
+            input.extend_from_slice(&((n + 1) as u32).to_be_bytes());
+            for _ in 0..n {
+                input.push(0x45);
+            }
+            for k in 0..n {
+                input.push(0xd0);
+                input.extend_from_slice(&((4 + chain_len(n - k - 1)) as u32).to_be_bytes());
+                input.extend_from_slice(&1u32.to_be_bytes());
+            }
+            input.push(0x40);
+        }
         // the same with the descriptor nested instead of the value
         _ => {
             for _ in 0..n {
@@ -1042,13 +1080,17 @@ pub fn nesting_probe_child(kind: &str, n: usize) {
 
 /// inputs nested far deeper than any stack allows are decoded in a child process: an overflowing stack
 /// kills the process (it cannot be caught), so the verdict is the child's exit status
-fn deep_nesting_probes(report: &mut Report, prop: &str) {
+pub fn deep_nesting_probes(report: &mut Report, prop: &str) {
     let exe = match std::env::current_exe() {
         Ok(e) => e,
         Err(_) => return,
     };
-    for kind in ["described", "descriptor"] {
+    for kind in ["described", "descriptor", "padded"] {
         for n in [20_000usize, 600_000] {
+            if kind == "padded" && n > 60_000 {
+                // one list of n + 1 entries: the count limit of the decoder refuses it before any descent
+                continue;
+            }
             report.evaluations += 1;
             report.count("deep_nesting_probes");
             let out = std::process::Command::new(&exe).arg("nesting-probe").arg(kind).arg(n.to_string()).output();
@@ -1056,7 +1098,7 @@ fn deep_nesting_probes(report: &mut Report, prop: &str) {
                 Ok(o) if o.status.success() => {}
                 Ok(o) => {
                     let err = String::from_utf8_lossy(&o.stderr);
-                    report.finding(Finding { kind: "violation", key: "decode-stack-overflow:LazyValue".into(), description: format!("decoding {} levels of nested {} (2 bytes per level) as a LazyValue / Value ended the process: {:?}: {}", n, if kind == "described" { "described values" } else { "descriptors" }, o.status, err.lines().last().unwrap_or("")), replay: json!({"property": prop, "module": "codec", "nesting_probe": kind, "levels": n}) });
+                    report.finding(Finding { kind: "violation", key: if kind == "padded" { "decode-stack-overflow:siblings-buy-depth".into() } else { "decode-stack-overflow:LazyValue".into() }, description: format!("decoding {} levels of nested {} (2 bytes per level; `padded`: as many empty lists, then that many nested lists) as a LazyValue / Value ended the process: {:?}: {}", n, if kind == "described" { "described values" } else { "descriptors" }, o.status, err.lines().last().unwrap_or("")), replay: json!({"property": prop, "module": "codec", "nesting_probe": kind, "levels": n}) });
                     break;
                 }
                 Err(e) => report.notes.push(format!("nesting probe could not be started: {}", e)),
